@@ -1376,6 +1376,7 @@ func main() {
 				run.Fail(idx, "supported-argument-type-refused", c.What+": "+err.Error(), c)
 			}
 			if err != nil {
+				run.Hist("premises:builder-refusal-theorems")
 				run.Count(js(c), true)
 				if !searching {
 					terms = append(terms, fmt.Sprintf("(%d, mk_bcase %s false None [] [])", idx, gty))
@@ -1635,6 +1636,17 @@ func main() {
 					run.Fail(idx, "literal-variable-disagree", fmt.Sprintf("%s: %s / %s: %s", c.Sends[0].Transport, js(a.Dump), c.Sends[k].Transport, js(bb.Dump)), c)
 				}
 			}
+		}
+		// which theorems' premises the case meets
+		switch {
+		case c.Class == "valid" || c.Class == "shared-variables" || (c.Class == "build" && c.Build == "accept"):
+			run.Hist("premises:transport-theorems(built type, sendable value):met")
+		case c.Class == "look-alike":
+			run.Hist("premises:selections-independent")
+		case c.Expect == "reject":
+			run.Hist("premises:rejection-theorems")
+		default:
+			run.Hist("premises:outside-the-range(conversion modelled, theorems exclude)")
 		}
 		nontrivial := c.Class != "valid" || nonZero(c.Sent, b.mty)
 		if c.Class == "build" {
